@@ -267,6 +267,15 @@ def route_rules(crate, level):
     ob += 1
     if acc is None:
         return [fnd("C16.ROUTE", v, "cannot find the accumulated attributes value returned by the parser")], ob
+    # every successful return hands back the accumulated value itself (what merge checked), nothing rebuilt from it
+    for bb in sorted(v.reach):
+        for st in v.blocks[bb]["stmts"]:
+            if st["k"] == "assign" and st["place"]["l"] == 0 and st["rv"]["k"] == "agg" and st["rv"].get("variant") == "Ok":
+                ob += 1
+                t = v.origin(st["rv"]["ops"][0])
+                same = t == ("multi", acc) or (t[0] == "call" and v.whole_defs(acc) and v.whole_defs(acc)[0][0] == "call" and v.whole_defs(acc)[0][1] == t[1])
+                if not same:
+                    out.append(fnd("C16.ROUTE", v, "the parser can return attributes other than the merged ones (what the duplicate / conflict checks saw is not what is used)", bb, fmt(t)))
     merges = [bb for bb, c in v.calls() if c.fn is not None and npath(c.path) == name + "::merge"]
     ob += 1
     if not merges:
